@@ -96,6 +96,9 @@ func c05Judge(c spec.Case, evs []spec.Event, d *Death) CaseResult {
 	if term(o.StateAtReturn) {
 		res.Counters["terminated_at_return"]++
 	}
+	if o.StateSoon == "nopid" || o.StateSoon == "?" {
+		return CaseResult{Verdict: "inconclusive", Inconcl: fmt.Sprintf("the state of the launched process could not be read (state %s, pid %d)", o.StateSoon, o.Pid), Class: res.Class}
+	}
 	if !term(o.StateSoon) {
 		viol("process-left-behind", fmt.Sprintf("Start returned %q but the launched process is still alive (state %s) %d ms later", trunc(o.StartErr, 80), o.StateSoon, o.SoonMs))
 	}
